@@ -66,6 +66,8 @@ struct HalHarness : Harness
         p.seti("sched.strategy", ST_DEFAULT);
         Rng g(mix64(seed, 0x4a1));
         double perr = g.chance(0.3) ? 0.0 : (g.chance(0.5) ? 0.15 : 0.4);
+        if (g.chance(0.5))
+            p.seti("stale_handle_on_failed_open", 1);
         int nops = (int)g.range(3, 50);
         char b[200];
         for (int i = 0; i < nops; ++i) {
@@ -186,6 +188,8 @@ struct HalHarness : Harness
             return v;
         };
         mock::Hooks& H = mock::hooks();
+        H.failed_open_leaves_stale_handle =
+          plan.geti("stale_handle_on_failed_open", 0) != 0;
         H.open = [&](int, uint64_t) { return scripting ? open_resp : 0; };
         H.describe = [&](int, uint64_t) {
             return scripting ? describe_resp : 0;
